@@ -241,7 +241,7 @@ def execute(h: Dict[str, Any]) -> Dict[str, Any]:
     probes = {k: 0 for k in ["stale_owned_placed", "stale_realname_placed", "foreign_placed", "empty_pkg_dir_placed", "committed_copy_placed",
                              "cleanup_removed_stale", "stale_overwritten", "fault_fired", "fault_not_reached", "faulted_run_failed",
                              "faulted_run_left_partial", "other_plugin_tree", "merge_files", "different_model_before", "listing_permuted",
-                             "test_dir_used", "uuid_checked", "ascii_locale", "clock_shifted", "long_output_path", "crlf_main_rs", "symlinked_output_dir", "python_optimize", "path_spelled_relative_or_odd"]}
+                             "test_dir_used", "uuid_checked", "ascii_locale", "clock_shifted", "long_output_path", "crlf_main_rs", "symlinked_output_dir", "python_optimize", "path_spelled_relative_or_odd", "other_machine_identity"]}
     faults_fired: Dict[str, int] = {}
     evlog: List[Any] = []
     try:
@@ -366,6 +366,8 @@ def execute(h: Dict[str, Any]) -> Dict[str, Any]:
                 probes["clock_shifted"] += 1
             if env.get("optimize"):
                 probes["python_optimize"] += 1
+            if env.get("machine"):
+                probes["other_machine_identity"] += 1
             if env.get("path_style") not in (None, "abs"):
                 probes["path_spelled_relative_or_odd"] += 1
             evlog.append(["FINAL", rj["rc"], len(rj["events"])])
@@ -410,7 +412,7 @@ def execute(h: Dict[str, Any]) -> Dict[str, Any]:
         w.destroy()
     return {"run_seed": h["run_seed"], "violations": viol, "harness": None, "probes": probes, "faults_fired": faults_fired,
             "invocations": inv, "digest": core.digest([h["plugin"], h["model"], evlog]), "plugin": plugin, "evlog": evlog,
-            "nontrivial": bool(h["ops"]) or any(e.get("hashseed") != "0" or e.get("ls_seed") is not None or e.get("locale") or e.get("clock_offset") or e.get("optimize") or e.get("path_style") not in (None, "abs") for e in h["finals"])}
+            "nontrivial": bool(h["ops"]) or any(e.get("hashseed") != "0" or e.get("ls_seed") is not None or e.get("locale") or e.get("clock_offset") or e.get("optimize") or e.get("machine") or e.get("path_style") not in (None, "abs") for e in h["finals"])}
 
 
 def gm_leak(ref_main: Optional[bytes], td: pathlib.Path, ids: set) -> bool:
@@ -674,7 +676,7 @@ def main(argv: List[str]) -> int:
         "skipped_reference_failed": skipped,
         "determinism": {"rerun_other_worker_count": det_checked, "mismatches": det_mismatch},
         "real_vs_stub": {"real": ["generator CLI, model loader, all four plugins (current working tree)", "CPython, pathlib, json, file system (tmpfs)"],
-                         "simulated": ["PYTHONHASHSEED", "uuid.uuid4 stream", "default text encoding (ASCII C locale vs UTF-8)", "wall clock (time.time/localtime/strftime, datetime.now/today shifted by days or years between runs)", "location and spelling (relative, trailing slash, ..) of the output directory, symlinked output directory, location of the model files", "python -O / -OO", "os.scandir/os.listdir order", "process kill / ENOSPC / EIO at write-open, during write (torn), at unlink, at mkdir",
+                         "simulated": ["PYTHONHASHSEED", "uuid.uuid4 stream", "default text encoding (ASCII C locale vs UTF-8)", "wall clock (time.time/localtime/strftime, datetime.now/today shifted by days or years between runs)", "location and spelling (relative, trailing slash, ..) of the output directory, symlinked output directory, location of the model files", "python -O / -OO", "machine identity: cpu count, host name, terminal size, USER/HOME/COLUMNS/TMPDIR/CI environment variables", "os.scandir/os.listdir order", "process kill / ENOSPC / EIO at write-open, during write (torn), at unlink, at mkdir",
                                        "initial directory contents"], "stub": []},
         "violation_signatures": sorted(first_fail),
     }
